@@ -35,8 +35,9 @@ def main():
         have = {r[0] for r in rows}
         for line in open(sp):
             c = [x.strip() for x in line.strip().strip("|").split("|")]
-            if len(c) == 4 and c[0].startswith("C") and c[0] not in have and os.path.isdir(os.path.join(V, "seeded", c[0])):
-                rows.append(tuple(c))
+            if len(c) >= 4 and c[0].startswith("C") and c[0] not in have and os.path.isdir(os.path.join(V, "seeded", c[0])):
+                rows.append((c[0], c[1], c[2], "|".join(c[3:])))  # signatures contain '|'
+
         rows.sort()
     with open(sp, "w") as f:
         f.write("# Seeded changes re-run against the current checks (quick tier)\n\n| change | confirmed (suite passes / demo fails with / passes without) | detected by | first signature |\n|---|---|---|---|\n")
